@@ -236,6 +236,12 @@ class ConnDriver:
             if reason is not getattr(self, 'reason', None):
                 self.ran[x] += 100
             self.ran[x] += 1
+            if obj is not self.conn:
+                # the application's reaction to losing a proxy: it asks for one again (registered at once, the interface
+                # being given) while the loss is still being reported to the other proxies
+                again = interface.DBusInterface('org.verif.Again', interface.Method('Ping'), noRegister=True)
+                self.relooked = getattr(self, 'relooked', [])
+                self.conn.getRemoteObject('org.ex.Srv', '/again%d' % x, interfaces=[again]).addBoth(self.relooked.append)
             if getattr(self, 'selfcancel', None) == x:
                 self.proxies[x].cancelNotifyOnDisconnect(self.cbfn[x])
             if getattr(self, 'reissue_from', None) == x:
